@@ -18,7 +18,7 @@ META = {
                    "reader's decision table (fails iff limit > 0 and trip > limit; consume adds saturating; reset zeroes) by "
                    "abstract interpretation; quick-xml is only ever given the counting reader; the attribute/element names "
                    "written by write_xml equal the literal patterns the parsers accept (decision-tree extraction); escaping "
-                   "byte classes; the delta-chain and origin checks' guards.",
+                   "byte classes; the delta-chain and origin checks' guards; unescaped text (Text::write_raw) reaches the output only through Content::raw and the base64 encoder; piecewise base64 encoding uses pieces of a multiple of 3 octets.",
     "not_decided": ["value round trip parse(write(x)) == x", "the exact byte bound (limit plus quick-xml's internal buffer)",
                     "quick-xml's own parsing and buffering"],
     "trusted_base": ["quick-xml pulls all input through BufRead::fill_buf/consume of the reader it is given"],
